@@ -190,6 +190,7 @@ struct Sums {
     after_half_cases_clean: u64,
     stray_cases_clean: u64,
     families_cases_clean: u64,
+    dual_listener_cases_clean: u64,
     dual_cases_clean: u64,
     dual_cases_vacuous: u64,
     max_wall_ms: u128,
@@ -223,6 +224,7 @@ fn add_udp(a: &mut UdpStats, b: &UdpStats) {
     a.socks_header_addr_is_target += b.socks_header_addr_is_target;
     a.socks_header_addr_is_client += b.socks_header_addr_is_client;
     a.socks_header_addr_other += b.socks_header_addr_other;
+    a.socks_header_addr_ipv4_mapped += b.socks_header_addr_ipv4_mapped;
     a.retransmissions += b.retransmissions;
     a.duplicates += b.duplicates;
     a.target_sources += b.target_sources;
@@ -250,6 +252,14 @@ struct Bounds {
     tcp_v6_lens: Vec<(usize, usize)>,
     /// [::1] exists for UDP sockets too: the two-address-families topologies are part of the matrix
     udp_two_families: bool,
+    /// SOCKS5 UDP with the SOCKS listener on the dual-stack wildcard address [::]: why the
+    /// topologies with a local application that uses IPv4 (.0), resp. IPv6 (.1), cannot be run
+    /// here (None: they are part of the matrix)
+    udp_dual_listener_skip: (Option<String>, Option<String>),
+    /// payload lengths of the dual-stack-listener topologies with 1 local client (the ordinary
+    /// UDP lengths and `DUAL_LISTENER_LENS`), and with 3 local clients
+    udp_dual_listener_lens: Vec<usize>,
+    udp_dual_listener_lens_3: Vec<usize>,
     /// (client->target, target->client) lengths of the dual-stack-name sub-matrix
     tcp_dual_lens: Vec<(usize, usize)>,
     /// "close after half-close" sub-matrix (the two close orders of `Order::AFTER_HALF`, every
@@ -258,6 +268,10 @@ struct Bounds {
     /// ... and the one (client->target = target->client) length that is run with 3 connections
     after_half_conc3_len: Option<usize>,
 }
+
+/// payload lengths every dual-stack-listener topology is run with, in both tiers (a reply header
+/// that is 12 octets short of what its ATYP announces shows differently below and above 12 octets)
+const DUAL_LISTENER_LENS: [usize; 4] = [0, 3, 32, 1400];
 
 /// close order, chunking and connections of the dual-stack-name sub-matrix
 const DUAL_ORDER: Order = Order::ClientHalf;
@@ -274,13 +288,40 @@ const V6_CHUNK: Chunk = Chunk::One;
 const V6_CONC: usize = 1;
 
 fn bounds(args: &Args) -> Bounds {
+    let mut b = bounds_of_tier(args);
+    let mut lens: Vec<usize> = b.udp_lens.iter().copied().chain(DUAL_LISTENER_LENS).collect();
+    lens.sort_unstable();
+    lens.dedup();
+    b.udp_dual_listener_lens = lens;
+    b.udp_dual_listener_lens_3 = DUAL_LISTENER_LENS.to_vec();
+    b.udp_dual_listener_skip = (udp::dual_listener_unavailable(false), udp::dual_listener_unavailable(true));
+    b
+}
+
+fn bounds_of_tier(args: &Args) -> Bounds {
     // the default receive window is 512 frames and the bridges read at most 8 KiB per frame, so
     // 512 * 8 KiB = 4 MiB is the least stream length that certainly needs a window update
     if args.thorough() {
-        Bounds { tcp_lens: vec![0, 1, 4099, 3 * 512 * 8192 + 5], tcp_len_window: None, slow_udp: true, concs: vec![1, 3, 5], udp_lens: vec![0, 1, 2, 3, 4, 5, 1400, 1472, 9000, 65000], deadline_s: 40, parallel: args.threads.clamp(1, 8), ipv6_loopback: tcp::ipv6_loopback(), tcp_v6_lens: vec![(1, 1), (70001, 70001)], udp_two_families: udp::ipv6_loopback(), tcp_dual_lens: vec![(4099, 4099)], after_half_lens: vec![1, 3 * 512 * 8192 + 5], after_half_conc3_len: Some(4099) }
+        Bounds { tcp_lens: vec![0, 1, 4099, 3 * 512 * 8192 + 5], tcp_len_window: None, slow_udp: true, concs: vec![1, 3, 5], udp_lens: vec![0, 1, 2, 3, 4, 5, 1400, 1472, 9000, 65000], deadline_s: 40, parallel: args.threads.clamp(1, 8), ipv6_loopback: tcp::ipv6_loopback(), tcp_v6_lens: vec![(1, 1), (70001, 70001)], udp_two_families: udp::ipv6_loopback(), udp_dual_listener_skip: (None, None), udp_dual_listener_lens: Vec::new(), udp_dual_listener_lens_3: Vec::new(), tcp_dual_lens: vec![(4099, 4099)], after_half_lens: vec![1, 3 * 512 * 8192 + 5], after_half_conc3_len: Some(4099) }
     } else {
         // 70001 B: nine 8 KiB frames, everywhere; 4198403 B (one window + 4099 B: needs a window update): sub-matrix
-        Bounds { tcp_lens: vec![0, 1, 70001], tcp_len_window: Some(512 * 8192 + 4099), slow_udp: false, concs: vec![1, 3], udp_lens: vec![0, 1, 3, 4, 1400], deadline_s: 30, parallel: args.threads.clamp(1, 8), ipv6_loopback: tcp::ipv6_loopback(), tcp_v6_lens: vec![(1, 1), (70001, 70001)], udp_two_families: udp::ipv6_loopback(), tcp_dual_lens: vec![(4099, 4099)], after_half_lens: vec![1, 512 * 8192 + 4099], after_half_conc3_len: Some(70001) }
+        Bounds { tcp_lens: vec![0, 1, 70001], tcp_len_window: Some(512 * 8192 + 4099), slow_udp: false, concs: vec![1, 3], udp_lens: vec![0, 1, 3, 4, 1400], deadline_s: 30, parallel: args.threads.clamp(1, 8), ipv6_loopback: tcp::ipv6_loopback(), tcp_v6_lens: vec![(1, 1), (70001, 70001)], udp_two_families: udp::ipv6_loopback(), udp_dual_listener_skip: (None, None), udp_dual_listener_lens: Vec::new(), udp_dual_listener_lens_3: Vec::new(), tcp_dual_lens: vec![(4099, 4099)], after_half_lens: vec![1, 512 * 8192 + 4099], after_half_conc3_len: Some(70001) }
+    }
+}
+
+impl Bounds {
+    /// why a dual-stack-listener topology is not part of the matrix here (None: it is, or it is not one)
+    fn dual_listener_skip(&self, topo: Topo) -> Option<&String> {
+        match topo.dual_listener() {
+            Some(false) => self.udp_dual_listener_skip.0.as_ref(),
+            Some(true) => self.udp_dual_listener_skip.1.as_ref(),
+            None => None,
+        }
+    }
+    /// "ran" / "skipped: why", per address family of the local application
+    fn dual_listener_status(&self) -> Value {
+        let st = |o: &Option<String>| o.as_ref().map_or_else(|| "ran".to_string(), |w| format!("skipped: {w}"));
+        json!({"ipv4-application": st(&self.udp_dual_listener_skip.0), "ipv6-application": st(&self.udp_dual_listener_skip.1)})
     }
 }
 
@@ -358,6 +399,19 @@ fn matrix(b: &Bounds) -> Vec<Case> {
         for kind in UKind::ALL {
             for topo in Topo::FAMILIES {
                 let c = UdpCase { kind, size: udp::FAMILIES_LEN, topo };
+                if c.valid() {
+                    v.push(Case::Udp(c));
+                }
+            }
+        }
+    }
+    for kind in UKind::ALL {
+        for topo in Topo::DUAL_LISTENER {
+            if b.dual_listener_skip(topo).is_some() {
+                continue;
+            }
+            for &size in if topo.dual_listener_clients() == 1 { &b.udp_dual_listener_lens } else { &b.udp_dual_listener_lens_3 } {
+                let c = UdpCase { kind, size, topo };
                 if c.valid() {
                     v.push(Case::Udp(c));
                 }
@@ -777,6 +831,18 @@ fn replay(env: &Env, v: &Value, mut rep: Report, b: &Bounds, args: &Args) -> Rep
         }
         return rep;
     }
+    if let Some(why) = match &case {
+        Case::Udp(u) => b.dual_listener_skip(u.topo).cloned(),
+        Case::Tcp(_) => None,
+    } {
+        // not a verdict and not an error: this machine cannot run the scenario
+        rep.rule = format!("replay of one recorded matrix point: SKIPPED, the scenario needs a SOCKS listener on the dual-stack wildcard address [::] that the local application reaches over the loopback address of its family, which cannot be had here: {why}");
+        rep.bounds.insert("udp_dual_stack_listener".into(), b.dual_listener_status());
+        rep.extra.insert("udp_dual_stack_listener".into(), b.dual_listener_status());
+        rep.extra.insert("replayed".into(), case.to_json());
+        rep.extra.insert("skipped".into(), json!(true));
+        return rep;
+    }
     if matches!(&case, Case::Udp(u) if u.topo.two_families()) && !b.udp_two_families {
         rep.rule = "replay of one recorded matrix point: SKIPPED, the scenario needs the IPv6 loopback address [::1], which does not exist here".into();
         rep.bounds.insert("ipv6_loopback".into(), json!(false));
@@ -812,6 +878,7 @@ fn replay(env: &Env, v: &Value, mut rep: Report, b: &Bounds, args: &Args) -> Rep
     rep.rule = "replay of one recorded matrix point, executed twice (fresh server, client, target and local clients each time); the interleaving is again whatever the runtime produces".into();
     rep.extra.insert("replayed".into(), case.to_json());
     rep.extra.insert("ipv6_loopback".into(), json!(b.ipv6_loopback));
+    rep.extra.insert("udp_dual_stack_listener".into(), b.dual_listener_status());
     rep.extra.insert("observations_identical".into(), json!(obs[0] == obs[1]));
     rep.extra.insert("observations".into(), json!(obs));
     rep.assumptions.push("schedules are not owned: a failure that depends on the interleaving may not reproduce in a replay".into());
@@ -993,6 +1060,7 @@ pub fn run(args: &Args) -> Report {
                                         Case::Tcp(t) if t.order.after_half() => g.after_half_cases_clean += 1,
                                         Case::Udp(u) if u.topo.stray().is_some() => g.stray_cases_clean += 1,
                                         Case::Udp(u) if u.topo.two_families() => g.families_cases_clean += 1,
+                                        Case::Udp(u) if u.topo.dual_listener().is_some() => g.dual_listener_cases_clean += 1,
                                         _ => {}
                                     }
                                 }
@@ -1169,8 +1237,26 @@ pub fn run(args: &Args) -> Report {
     } else {
         "; the SOCKS5 UDP two-address-families topologies are SKIPPED: this machine has no IPv6 loopback address".to_string()
     };
+    let dual_listener_rule = {
+        let (s4, s6) = (&b.udp_dual_listener_skip.0, &b.udp_dual_listener_skip.1);
+        let ran: Vec<&str> = [(s4, "IPv4 (127.0.0.1)"), (s6, "IPv6 ([::1])")].iter().filter(|(s, _)| s.is_none()).map(|(_, n)| *n).collect();
+        let skipped: Vec<String> = [(s4, "IPv4"), (s6, "IPv6")].iter().filter_map(|(s, n)| s.as_ref().map(|w| format!("the topologies with a local application that uses {n} are SKIPPED: {w}"))).collect();
+        let mut t = String::new();
+        if !ran.is_empty() {
+            t.push_str(&format!(
+                "; plus SOCKS5 UDP (IPv4 header, domain header; target on 127.0.0.1) with the SOCKS listener on the DUAL-STACK wildcard address (remote specification [::]:PORT:socks, relay sockets on [::]:0) x address family the local application uses for the control connection, its UDP socket and the relay address ({}) x [1 local client x payload length in {:?} + 3 local clients (one association each) x payload length in {:?}], 3 exchanges per leg, same oracle as everywhere",
+                ran.join(", "),
+                b.udp_dual_listener_lens,
+                b.udp_dual_listener_lens_3
+            ));
+        }
+        for sk in skipped {
+            t.push_str(&format!("; SOCKS5 UDP with the SOCKS listener on the dual-stack wildcard address [::]: {sk}"));
+        }
+        t
+    };
     let stray_rule = format!("; plus SOCKS5 UDP (IPv4 header, domain header) x stray datagram to the relay port from another local socket after the first exchange ({}) with {}-byte payloads, 3 exchanges", Topo::STRAY.iter().filter_map(|t| t.stray()).map(|(d, n)| format!("{n}: {}", vcommon::report::hex(d))).collect::<Vec<_>>().join(", "), udp::STRAY_LEN);
-    rep.rule = format!("complete product, every point enumerated (no sampling): TCP = entry point (7) x connections {:?} x chunking (3) x [close order (4) x client->target length in L x target->client length in L + target-refuses x client->target length in L], where {len_rule}{after_half_rule}{v6_rule}{dual_rule}; UDP = entry (UDP remote, SOCKS5 UDP with IPv4 header, with domain header) x topology (1 client, 3 clients, 1 socket to 2 entry points, 1 client whose payload lengths change from datagram to datagram (len, 3, len+500, 0, len+1); SOCKS5 only: 1 association alternating between 2 targets with the same host string and different ports, and between 2 targets with different host strings 127.0.0.1/127.0.0.2 and the same port) x payload length, 3 request/reply exchanges per leg{stray_rule}{families_rule}{}; one execution per point (more only after a lost port race or a deadline hit); a case is distinct when its parameter tuple is distinct", b.concs, if b.slow_udp { format!("; plus the real-time scenarios: UDP entry (3) x [steady sender: 1 datagram of {} bytes per second for 2*UDP_PRUNE_TIMEOUT+3 = {} s to a silent target, which then answers the last one | idle: one exchange, {} s of silence, one more exchange | idle gap between one and two prune timeouts: one exchange, {} s of silence, one more exchange from the same socket whose FIRST transmission must be at the target within {} ms]", udp::SLOW_LEN, 2 * udp::prune_timeout().as_secs() + 3, 2 * udp::prune_timeout().as_secs() + 1, udp::prune_timeout().as_secs() + udp::GAP_EXTRA_S, udp::GAP_FIRST_TX_MS) } else { String::new() });
+    rep.rule = format!("complete product, every point enumerated (no sampling): TCP = entry point (7) x connections {:?} x chunking (3) x [close order (4) x client->target length in L x target->client length in L + target-refuses x client->target length in L], where {len_rule}{after_half_rule}{v6_rule}{dual_rule}; UDP = entry (UDP remote, SOCKS5 UDP with IPv4 header, with domain header) x topology (1 client, 3 clients, 1 socket to 2 entry points, 1 client whose payload lengths change from datagram to datagram (len, 3, len+500, 0, len+1); SOCKS5 only: 1 association alternating between 2 targets with the same host string and different ports, and between 2 targets with different host strings 127.0.0.1/127.0.0.2 and the same port) x payload length, 3 request/reply exchanges per leg{stray_rule}{families_rule}{dual_listener_rule}{}; one execution per point (more only after a lost port race or a deadline hit); a case is distinct when its parameter tuple is distinct", b.concs, if b.slow_udp { format!("; plus the real-time scenarios: UDP entry (3) x [steady sender: 1 datagram of {} bytes per second for 2*UDP_PRUNE_TIMEOUT+3 = {} s to a silent target, which then answers the last one | idle: one exchange, {} s of silence, one more exchange | idle gap between one and two prune timeouts: one exchange, {} s of silence, one more exchange from the same socket whose FIRST transmission must be at the target within {} ms]", udp::SLOW_LEN, 2 * udp::prune_timeout().as_secs() + 3, 2 * udp::prune_timeout().as_secs() + 1, udp::prune_timeout().as_secs() + udp::GAP_EXTRA_S, udp::GAP_FIRST_TX_MS) } else { String::new() });
     rep.bounds.insert("tcp_entry_points".into(), json!(Entry::ALL.iter().map(|e| e.name()).collect::<Vec<_>>()));
     rep.bounds.insert("ipv6_loopback".into(), json!(b.ipv6_loopback));
     rep.bounds.insert("tcp_ipv6_literal_entry_points".into(), json!(if b.ipv6_loopback { Entry::V6.iter().map(|e| e.name()).collect::<Vec<_>>() } else { Vec::new() }));
@@ -1187,6 +1273,13 @@ pub fn run(args: &Args) -> Report {
     rep.bounds.insert("udp_two_address_families_topologies".into(), json!(if b.udp_two_families { Topo::FAMILIES.iter().map(|e| e.name()).collect::<Vec<_>>() } else { Vec::new() }));
     rep.bounds.insert("udp_two_address_families_payload_length".into(), json!(udp::FAMILIES_LEN));
     rep.bounds.insert("udp_two_address_families_cases".into(), json!(cases.iter().filter(|c| matches!(c, Case::Udp(u) if u.topo.two_families())).count()));
+    rep.bounds.insert("udp_dual_stack_listener".into(), b.dual_listener_status());
+    rep.bounds.insert("udp_dual_stack_listener_topologies".into(), json!(Topo::DUAL_LISTENER.iter().filter(|t| b.dual_listener_skip(**t).is_none()).map(|e| e.name()).collect::<Vec<_>>()));
+    rep.bounds.insert("udp_dual_stack_listener_topologies_skipped".into(), json!(Topo::DUAL_LISTENER.iter().filter(|t| b.dual_listener_skip(**t).is_some()).map(|e| e.name()).collect::<Vec<_>>()));
+    rep.bounds.insert("udp_dual_stack_listener_entries".into(), json!(UKind::ALL.iter().filter(|k| UdpCase { kind: **k, size: 0, topo: Topo::DualV4 }.valid()).map(|e| e.name()).collect::<Vec<_>>()));
+    rep.bounds.insert("udp_dual_stack_listener_payload_lengths_1_client".into(), json!(b.udp_dual_listener_lens));
+    rep.bounds.insert("udp_dual_stack_listener_payload_lengths_3_clients".into(), json!(b.udp_dual_listener_lens_3));
+    rep.bounds.insert("udp_dual_stack_listener_cases".into(), json!(cases.iter().filter(|c| matches!(c, Case::Udp(u) if u.topo.dual_listener().is_some())).count()));
     rep.bounds.insert("udp_stray_datagram_topologies".into(), json!(Topo::STRAY.iter().map(|e| e.name()).collect::<Vec<_>>()));
     rep.bounds.insert("udp_stray_datagram_payload_length".into(), json!(udp::STRAY_LEN));
     rep.bounds.insert("udp_stray_datagram_cases".into(), json!(cases.iter().filter(|c| matches!(c, Case::Udp(u) if u.topo.stray().is_some())).count()));
@@ -1214,6 +1307,8 @@ pub fn run(args: &Args) -> Report {
     rep.extra.insert("tcp_ipv6_literal_cases_clean".into(), json!(sums.v6_cases_clean));
     rep.extra.insert("udp_stray_datagram_cases_clean".into(), json!(sums.stray_cases_clean));
     rep.extra.insert("udp_two_address_families_cases_clean".into(), json!(sums.families_cases_clean));
+    rep.extra.insert("udp_dual_stack_listener".into(), b.dual_listener_status());
+    rep.extra.insert("udp_dual_stack_listener_cases_clean".into(), json!(sums.dual_listener_cases_clean));
     rep.extra.insert("dual_stack_names".into(), json!(dual_status));
     rep.extra.insert("dual_stack_name_resolver_order".into(), dual_order.clone());
     rep.extra.insert("dual_stack_name_cases_clean".into(), json!(sums.dual_cases_clean));
@@ -1254,6 +1349,7 @@ pub fn run(args: &Args) -> Report {
     rep.extra.insert("socks5_udp_header_addr_is_target".into(), json!(sums.udp.socks_header_addr_is_target));
     rep.extra.insert("socks5_udp_header_addr_is_local_client".into(), json!(sums.udp.socks_header_addr_is_client));
     rep.extra.insert("socks5_udp_header_addr_other".into(), json!(sums.udp.socks_header_addr_other));
+    rep.extra.insert("socks5_udp_header_addr_is_ipv4_mapped_ipv6".into(), json!(sums.udp.socks_header_addr_ipv4_mapped));
     rep.extra.insert("slowest_scenario_ms".into(), json!(sums.max_wall_ms));
     rep.extra.insert("domain_name_used".into(), json!(env.domain));
     rep.extra.insert("build_profile".into(), json!(if cfg!(debug_assertions) { "checked" } else { "release" }));
@@ -1271,7 +1367,8 @@ pub fn run(args: &Args) -> Report {
             rep.sample(c.to_json());
         }
     }
-    let picks: [&dyn Fn(&Case) -> bool; 10] = [
+    let picks: [&dyn Fn(&Case) -> bool; 11] = [
+        &|c| matches!(c, Case::Udp(u) if u.kind == UKind::SocksIp && u.topo == Topo::DualV4 && u.size == 3),
         &|c| matches!(c, Case::Tcp(t) if t.order == Order::TargetHalfThenClose && t.entry == Entry::Socks5Ip && t.conc == 1 && t.c2t == 1 && t.t2c > 1),
         &|c| matches!(c, Case::Udp(u) if u.topo == Topo::TwoFamilies),
         &|c| matches!(c, Case::Tcp(t) if t.entry == Entry::HttpConnectV6 && t.c2t > 1),
@@ -1296,6 +1393,7 @@ pub fn run(args: &Args) -> Report {
     rep.assumptions.push("target refuses: a SOCKS/HTTP success answer followed by a close, a refusal answer, or a close before the answer all count as 'closed rather than left hanging'".into());
     rep.assumptions.push("the address inside the SOCKS5 UDP reply header is recorded (extra.socks5_udp_header_addr_*), not judged: the statement only demands a well-formed header that can be stripped".into());
     rep.assumptions.push("loopback only (127.0.0.1, a Unix socket and, for the targets of the IPv6-literal, dual-stack-name and two-address-families sub-matrices where it exists, [::1]); plain ws:// between client and server; keep-alive off; fresh client+server per matrix point".into());
+    rep.assumptions.push("dual-stack-listener topologies: the only scenarios whose SOCKS listener is not on 127.0.0.1. BND.ADDR of the UDP ASSOCIATE reply is the unspecified address there; the local application then sends to the address it reached the proxy at (127.0.0.1, resp. [::1]) with BND.PORT, as everywhere else. They need a socket bound to [::] that is reachable over 127.0.0.1 (net.ipv6.bindv6only = 0), resp. over [::1]; this is probed once with sockets of the harness itself, and where it does not hold the topologies are left out (bounds.udp_dual_stack_listener says why): not a violation, not a machinery error. Their violation keys end in .dual-stack-listener-ipv4-app / .dual-stack-listener-ipv6-app".into());
     rep.assumptions.push("UDP loss tolerance: a request is retransmitted up to 5 times over 21.5 s before its reply counts as missing".into());
     rep.assumptions.push(format!("exceptions to the UDP loss tolerance, both judged on purpose before the schedule is used up: (a) idle-gap scenario: the FIRST datagram after the gap has {} ms to show up at the target (a deadline-type failure: it counts only when it shows again with the scenario run alone); (b) stray-datagram scenarios: an exchange unanswered after 3 transmissions is declared dead only if a fresh association through the same client, server and target then works and a 4th transmission on the old association (waiting at least 1 s and at least 20 times what the fresh association took) still gets nothing", udp::GAP_FIRST_TX_MS));
     rep.assumptions.push(format!("two-address-families scenarios (SOCKS5 UDP, one association, targets on 127.0.0.1 and [::1] in turn): a third exception to the UDP loss tolerance. The FIRST transmission of every exchange after the first has {} ms to show up at its target; if it has not, a fresh association through the same client and server makes one exchange with that very target (full loss tolerance); if that works and the datagram of the old association is still not at the target after at least 1 s and at least 20 times what the fresh association took, it is judged not delivered (key {}, not a deadline-type failure); the retransmissions then go on as usual", udp::FAMILIES_FIRST_TX_MS, udp::FAMILY_KEY));
